@@ -990,6 +990,7 @@ func run(c *hc.Ctx) error {
 	if err != nil {
 		return err
 	}
+	persisted := 0
 	for i, a := range ans {
 		want := "ok " + outs[i].obs + " term=1 holds=1"
 		if want == a {
@@ -997,7 +998,12 @@ func run(c *hc.Ctx) error {
 			continue
 		}
 		// the history is reconstructed from real-time observations: re-run the script before believing
-		// a mismatch (machine load)
+		// a mismatch (machine load) — unless the verdict is settled anyway (many mismatches have already
+		// persisted over their re-runs): then the remaining ones are reported as they are
+		if persisted >= 25 {
+			c.Differ(scripts[i].String()+" | "+lines[i], want, a, "not re-run: 25 mismatches have already persisted over their re-runs")
+			continue
+		}
 		agreed := false
 		for try := 0; try < 2 && !agreed; try++ {
 			o2 := runScript(scripts[i])
@@ -1015,6 +1021,7 @@ func run(c *hc.Ctx) error {
 			}
 		}
 		if !agreed {
+			persisted++
 			c.Differ(scripts[i].String()+" | "+lines[i], want, a, "persisted over 2 re-runs")
 		}
 	}
